@@ -27,6 +27,9 @@ type c09Op struct {
 	// EndBound/EndDelta (readat/read): length chosen so that the end lands at boundary+delta (Bound>=0 only)
 	EndBound int `json:"end_bound"`
 	EndDelta int `json:"end_delta,omitempty"`
+	// ResumeBack k > 0 (readat, seek): the offset is where the k-th previous read of this case that returned data
+	// ended - a reader coming back to a place it left, with other reads in between
+	ResumeBack int `json:"resume_back,omitempty"`
 }
 
 type c09Case struct {
@@ -77,7 +80,24 @@ func genC09(t *rapid.T) c09Case {
 		if op.Kind == "seek" {
 			op.Whence = rapid.IntRange(0, 2).Draw(t, l+"-whence")
 		}
+		if op.Kind != "read" && rapid.IntRange(0, 4).Draw(t, l+"-resume") == 0 {
+			op.ResumeBack = rapid.IntRange(1, 4).Draw(t, l+"-resumeback")
+		}
 		c.Ops = append(c.Ops, op)
+	}
+	// directed: leave a place inside one file, read somewhere else, come back to exactly that place
+	for k := rapid.IntRange(0, 3).Draw(t, "ntrios"); k > 0; k-- {
+		l := fmt.Sprintf("trio%d", k)
+		for j := 0; j < 2; j++ {
+			c.Ops = append(c.Ops, c09Op{Kind: "readat", Bound: rapid.IntRange(0, 30).Draw(t, fmt.Sprintf("%s-b%d", l, j)), EndBound: -1,
+				Off: int64(rapid.SampledFrom([]int{0, 0, 1, 100, 2048, 3000}).Draw(t, fmt.Sprintf("%s-d%d", l, j))),
+				N:   rapid.SampledFrom([]int{1, 100, 777, 2048, 2049, 5000}).Draw(t, fmt.Sprintf("%s-n%d", l, j))})
+		}
+		c.Ops = append(c.Ops, c09Op{Kind: rapid.SampledFrom([]string{"readat", "seek"}).Draw(t, l+"-kind"), Bound: -1, EndBound: -1, ResumeBack: 2,
+			N: rapid.SampledFrom([]int{1, 100, 2048, 5000}).Draw(t, l+"-n")})
+		if c.Ops[len(c.Ops)-1].Kind == "seek" {
+			c.Ops = append(c.Ops, c09Op{Kind: "read", Bound: -1, EndBound: -1, N: 3000})
+		}
 	}
 	c.Sweep = rapid.IntRange(0, 5).Draw(t, "sweep") == 0
 	return c
@@ -218,9 +238,18 @@ func runC09(c c09Case, st *hx.Stats) error {
 		return hx.Failf("seek-contract", "Seek(0, SeekStart) failed: %v", err)
 	}
 	cur := int64(0)
+	var ends []int64 // where the reads that returned data ended
 	resolve := func(op c09Op) (int64, int) {
 		off := op.Off
 		n := op.N
+		if op.ResumeBack > 0 && len(ends) > 0 {
+			k := op.ResumeBack
+			if k > len(ends) {
+				k = len(ends)
+			}
+			st.Label("read resumed where an earlier read ended")
+			return ends[len(ends)-k], n
+		}
 		if op.Bound >= 0 {
 			b := bounds[op.Bound%len(bounds)]
 			off = b + op.Off
@@ -261,6 +290,9 @@ func runC09(c c09Case, st *hx.Stats) error {
 			if err := c09CheckReadAt(viso, img, off, n); err != nil {
 				return fmt.Errorf("op %d: %w", i, err)
 			}
+			if off >= 0 && off < size {
+				ends = append(ends, min64i(off+int64(n), size))
+			}
 		case "read":
 			ntKey("read", cur, n)
 			buf := make([]byte, n)
@@ -285,6 +317,7 @@ func runC09(c c09Case, st *hx.Stats) error {
 				return hx.Failf("read-contract", "op %d: Read(len %d) at cursor %d returned data with err=%v", i, n, cur, err)
 			}
 			cur += int64(got)
+			ends = append(ends, cur)
 		case "seek":
 			var target int64
 			arg := off
